@@ -5,6 +5,7 @@ CONSTANTS
   ShareEntry = FALSE
   AtomicCounter = FALSE
   NRepl = 3
-SPECIFICATION Spec
+SPECIFICATION FairSpec
 INVARIANTS EntryIntact DialsOK RotationOK
+PROPERTY RefresherStops
 CHECK_DEADLOCK FALSE
